@@ -95,7 +95,7 @@ TEXT = {
  "C20": {
   "technique": "property-based testing (rapid): generated limiter settings, spoofed-source floods and concurrent outbound queries with every rate-limiting policy and failing socket writes; the send budget is checked with a prefix bound that real-time scheduling delay cannot falsify",
   "level": "For every generated run: the k-th rated datagram is written no earlier than burst + rate x elapsed allows, counted from the limiter's creation and again from a quiescent instant that follows a prelude of a few answered queries and a pause long enough to refill the limiter completely; with a non-refilling limiter at most `burst` rated datagrams ever; no query exceeds NumTries; all calls return. In a quarter of the runs the socket reports every n-th rated datagram as written one byte short with no error.",
-  "note": "Uses real time (the limiter is golang.org/x/time/rate); only one-sided prefix inequalities are asserted, each from an instant at which no goroutine is between taking a token and writing (creation, or a quiescence barrier with wait-to-reply off). Sliding windows over observed times are deliberately not used. Sub-property C20b places one exact history (a refused write's token refund followed by the cancellation of a send that waits for budget) and shows a genuine defect recorded as an open known finding (C20:refund-then-cancelled-wait-overcredits: one datagram over budget per such pair); C20a files an excess of at most the number of refused rated writes of the run under that key, printed as KNOWN-FINDING and not counted as a violation.",
+  "note": "Uses real time (the limiter is golang.org/x/time/rate); only one-sided prefix inequalities are asserted, each from an instant at which no goroutine is between taking a token and writing (creation, or a quiescence barrier with wait-to-reply off). Sliding windows over observed times are deliberately not used. Sub-property C20c makes sends overtake each other between entering the send path and reaching the limiter (a slow user-supplied blocklist lookup for every other destination, a steady stream of rated non-waiting queries) and applies the same bound. Sub-property C20b places one exact history (a refused write's token refund followed by the cancellation of a send that waits for budget) and shows a genuine defect recorded as an open known finding (C20:refund-then-cancelled-wait-overcredits: one datagram over budget per such pair); C20a files an excess of at most the number of refused rated writes of the run under that key, printed as KNOWN-FINDING and not counted as a violation.",
   "ref": "DESIGN.md section 4, C20",
  },
  "C10": {
